@@ -92,6 +92,56 @@ def hTcyl : Handler := fun args impl => do
     | [] => fails := fails ++ ["no_core_rod"]
     pure (model, fails)
 
+/-- geometric oracle on the points alone (long threads): radii, start, pitch at *every* revolution, hand -/
+def threadPointsOracle (pts : Array (Pt3 Float)) (nFaces : Nat) (rMin rMaj pitch _length : Float) (segments : Nat)
+    (left : Bool) : List String := Id.run do
+  let n := pts.size
+  if n < 8 || n % 4 ≠ 0 then return ["thread_point_count"]
+  let rings := n / 4
+  let mut fails : List String := []
+  if nFaces ≠ 8 * rings - 4 then fails := fails ++ [s!"thread_face_count:{nFaces}_for_{rings}_rings"]
+  let tol := F!(1e-9) * (F!(1.0) + rMaj)
+  let mut minz := F!(1e300)
+  let mut radiiOk := true
+  for p in pts do
+    let r := (p.x * p.x + p.y * p.y).sqrt
+    if !(rMin - tol ≤ r && r ≤ rMaj + tol) then radiiOk := false
+    if p.z < minz then minz := p.z
+  if !radiiOk then fails := fails ++ ["vertex_outside_minor_major_radius"]
+  if !(minz == F!(0.0)) then fails := fails ++ [s!"thread_does_not_start_at_z0:{fmtF minz}"]
+  let mut pitchOk := true
+  let mut worst := F!(0.0)
+  for k in [1:rings - segments] do
+    let dz := pts[4 * (k + segments) + 2]!.z - pts[4 * k + 2]!.z
+    if !(pitch * (F!(1.0) - F!(1e-9)) ≤ dz && dz ≤ pitch * (F!(1.0) + F!(1.0) / rings.toFloat) * (F!(1.0) + F!(1e-9))) then
+      pitchOk := false; worst := dz
+  if !pitchOk then fails := fails ++ [s!"does_not_advance_one_pitch_per_revolution:dz={fmtF worst}:pitch={fmtF pitch}"]
+  let mut handOk := true
+  let mut upOk := true
+  for k in [1:rings - 1] do
+    let a := pts[4 * k + 2]!; let b := pts[4 * (k + 1) + 2]!
+    let cr := a.x * b.y - a.y * b.x
+    if segments ≥ 3 then
+      if left then
+        if !(cr < F!(0.0)) then handOk := false
+      else
+        if !(cr > F!(0.0)) then handOk := false
+    if !(b.z ≥ a.z) then upOk := false
+  if !handOk then fails := fails ++ [if left then "left_hand_thread_does_not_turn_clockwise_going_up" else "right_hand_thread_does_not_turn_counter_clockwise_going_up"]
+  if !upOk then fails := fails ++ ["thread_height_not_monotone"]
+  return fails
+
+/-- `tcylbig …` — oracle only: the implementation's points are echoed as the "model" answer -/
+def hTcylBig : Handler := fun args impl => do
+  let ((dMin, dMaj, pitch, length, seg, _li, _lo, left), _) ← (do
+    let a ← f64; let b ← f64; let c ← f64; let d ← f64; let s ← nat; let li ← f64; let lo ← f64
+    let l ← bool
+    pure (a, b, c, d, s, li, lo, l) : P _).run args
+  let model : Res := [("pts", (impl.find "pts").getD ["PANIC"])]
+  if impl.isPanic "pts" then return (model, ["builder_panicked"])
+  let (nf, pts) ← impl.parse "pts" (do let nf ← nat; let ps ← listOf pt3; pure (nf, ps))
+  pure (model, threadPointsOracle pts.toArray nf (dMin / F!(2.0)) (dMaj / F!(2.0)) pitch length seg left)
+
 /-- is `centred` exactly `translate([0,0,-h/2]) { uncentred }`? (token-level: exact floats) -/
 def centredIsTranslate (un ce : Res → Option (List String)) (impl : Res) (h : Float) : List String :=
   match un impl, ce impl with
@@ -149,7 +199,7 @@ def hCylChamfer (forC14 : Bool) : Handler := fun args impl => do
   else pure (model, [])
 
 def handlers : List (String × Handler) :=
-  [("lookup", hLookup), ("table", hTable), ("tcyl", hTcyl), ("rod", hPart .rod false), ("tap", hPart .tap false),
+  [("lookup", hLookup), ("table", hTable), ("tcyl", hTcyl), ("tcylbig", hTcylBig), ("rod", hPart .rod false), ("tap", hPart .tap false),
    ("bolt", hPart .bolt false), ("nut", hPart .nut false), ("cylchamfer", hCylChamfer false)]
 def handlersC14 : List (String × Handler) :=
   [("rod", hPart .rod true), ("tap", hPart .tap true), ("bolt", hPart .bolt true), ("nut", hPart .nut true),
